@@ -53,3 +53,33 @@ pub fn i_from_ref(n: &RefInt) -> BigInt {
     };
     BigInt::from_biguint(s, u_from_ref(&n.mag))
 }
+
+/// Build the same value by different routes so that buffers carry different capacity / slack.
+pub fn build_u(words: &[u32], route: i128) -> BigUint {
+    let base = BigUint::new(words.to_vec());
+    match route {
+        1 => BigUint::from_slice(words),
+        2 => (base << 192u32) >> 192u32,
+        3 => {
+            let big = BigUint::new(vec![0xffff_ffff; words.len() + 9]);
+            (base + &big) - &big
+        }
+        4 => base.to_string().parse().unwrap(),
+        5 => {
+            let mut t = BigUint::new(vec![7; words.len() * 4 + 40]);
+            t.clone_from(&base);
+            t
+        }
+        6 => {
+            let mut w = words.to_vec();
+            w.extend_from_slice(&[0, 0, 0]);
+            BigUint::new(w)
+        }
+        7 => {
+            let mut t = BigUint::new(vec![1; 70]);
+            t.assign_from_slice(words);
+            t
+        }
+        _ => base,
+    }
+}
